@@ -167,12 +167,34 @@ def _assign_case(seed):
     return desc, problems
 
 
+def kf_two_isoforms_within_tolerance(inputs):
+    """known-finding class: the (full-length) read lies within delta of the junctions of ANOTHER annotated isoform as well, and only that
+    one is reported (two annotated splice sites closer than 2 * delta; the profile matches the read intron to the nearer one)"""
+    import random
+    from contracts import pipeline_harness as H
+    desc, problems = _assign_case(inputs["seed"])
+    if not desc or not problems or not all(p.startswith("full-length read of") for p in problems):
+        return False
+    if desc["type"] not in CONSISTENT or not desc["reported"]:
+        return False
+    rng = random.Random(inputs["seed"])
+    matching = rng.choice(["default", "precise", "loose", "exact"])
+    params = H.make_params("default_ont", matching)
+    single = rng.random() < .5
+    isoforms = {t: ex for t, _s, ex in H.make_gene(rng, 1 if single else None)}
+    read = desc["read"]
+    def follows(ex):
+        return len(ex) == len(read) and all(abs(ex[i][1] - read[i][1]) <= params.delta and abs(ex[i + 1][0] - read[i + 1][0]) <= params.delta
+                                            for i in range(len(ex) - 1))
+    return all(t in isoforms and follows(isoforms[t]) for t in desc["reported"]) and follows(isoforms[desc["isoform"]])
+
+
 def replay_assign(d):
     desc, p = _assign_case(d["inputs"]["seed"])
     return (not p), "seed %s %s: %s" % (d["inputs"]["seed"], desc, p or "as the property says")
 
 
-@bounded("C01.assigner_end_to_end", ["C01"], note="random genes (1-3 isoforms over a shared exon pool) and reads derived from an isoform: "
+@bounded("C01.assigner_end_to_end", ["C01"], shards=14, note="random genes (1-3 isoforms over a shared exon pool) and reads derived from an isoform: "
          "exact, truncated at either end, junctions jittered within delta -> the real LongReadAssigner must report a consistent type, the "
          "isoform among the matches when the read is full-length, and a unique assignment when it is the only isoform; reads with a "
          "retained intron (>= 300 bp), >= 100 intronic bases retained at a read end, a 5' end 300-900 bp outside the isoform, a skipped exon (>= 150 bp) or an extra exon relative to the only isoform must never be consistent; "
@@ -182,7 +204,13 @@ def c01_e2e(tier, rng):
     base = rng.randrange(10 ** 9)
     done = 0
     kinds = {}
-    for k in range(n):
+    viol = {}
+    # the listed known finding is replayed on every run (it is reported as KNOWN-FINDING only while it still fails)
+    import json, os
+    kfp = os.path.join(os.path.dirname(os.path.dirname(os.path.abspath(__file__))), "known_findings.json")
+    witnesses = [f["witness"]["seed"] for f in json.load(open(kfp)).get("findings", [])
+                 if f.get("where") == "C01.assigner_end_to_end" and isinstance(f.get("witness"), dict) and "seed" in f["witness"]]
+    for k in [w - base for w in witnesses] + list(range(n)):
         try:
             desc, p = _assign_case(base + k)
         except Exception as e:
@@ -192,9 +220,17 @@ def c01_e2e(tier, rng):
         done += 1
         kinds[desc.get("kind")] = kinds.get(desc.get("kind"), 0) + 1
         if p:
-            return {"cases": done, "bound": "%d derived reads" % n, "violations": [{
-                "obligation": "C01.assigner_end_to_end", "inputs": {"seed": base + k}, "observed": [str(desc)] + p[:3],
-                "required": "the property's sentence", "replay_call": "contracts.c_assign:replay_assign"}]}
+            # one representative inside and one outside the known-finding class (a different violation is still reported)
+            try:
+                cls = kf_two_isoforms_within_tolerance({"seed": base + k})
+            except Exception:
+                cls = False
+            viol.setdefault(cls, {"obligation": "C01.assigner_end_to_end", "inputs": {"seed": base + k}, "observed": [str(desc)] + p[:3],
+                                  "required": "the property's sentence", "replay_call": "contracts.c_assign:replay_assign"})
+            if False in viol:
+                break
+    if viol:
+        return {"cases": done, "bound": "%d derived reads" % n, "violations": [viol[c] for c in sorted(viol)]}
     return {"cases": done, "bound": "%d derived reads x 4 matching presets (sampled)" % n, "violations": [], "nontrivial": len(kinds),
             "samples": [{"seed": base, "kinds": kinds}]}
 
